@@ -48,6 +48,97 @@ def revert_family(rng, n):
     return out
 
 
+def flag_list_correspondence(ctx, n):
+    """FlagList.v against the real Flag / InverseFlag: random histories of subscribe / unsubscribe (to the flag or to its
+    inverse) and set(True/False) are executed on a real Flag under a stand-in loop that records `schedule` calls, and through
+    the Coq function `run`; scheduled pairs in order, both waiting lists, the value, revoked tokens and errors must agree"""
+    import usim
+    from usim._core.loop import Interrupt
+    from usim._core.handler import __USIM_STATE__ as state
+    from harness.check import parse_nat_list
+    rng = ctx.rng
+    ME = object()
+
+    class FakeLoop:
+        time = 0
+        activity = ME
+
+        def __init__(self):
+            self.log = []
+
+        def schedule(self, target, signal=None, *, delay=None, at=None):
+            if target is not ME:          # (the setter's own postponement is not part of the model)
+                self.log.append((target, signal))
+            if signal is not None:
+                signal.scheduled = True
+    cases = []
+    for _ in range(n):
+        loop, flag = FakeLoop(), usim.Flag()
+        toks, subs, ops = {}, [], []
+        revoked, errors = [], 0
+        with state.assign(loop):
+            for _ in range(rng.randint(0, 12)):
+                c = rng.random()
+                if c < 0.45 or not subs:
+                    inv, w, t = rng.random() < 0.5, rng.randint(1, 4), len(toks) + 1
+                    toks[t] = Interrupt(t)
+                    subs.append((inv, w, t))
+                    ops.append('Sub %s %d %d' % ('true' if inv else 'false', w, t))
+                    ((~flag) if inv else flag).__subscribe__(w, toks[t])
+                elif c < 0.65:
+                    inv, w, t = rng.choice(subs)
+                    ops.append('Unsub %s %d %d' % ('true' if inv else 'false', w, t))
+                    try:
+                        was = toks[t].scheduled
+                        ((~flag) if inv else flag).__unsubscribe__(w, toks[t])
+                        if was:
+                            revoked.append(t)
+                    except ValueError:
+                        errors += 1
+                else:
+                    b = rng.random() < 0.5
+                    ops.append('SetTo %s' % ('true' if b else 'false'))
+                    co = flag.set(b)
+                    try:
+                        co.send(None)          # runs up to the postponement at the end of set()
+                    except StopIteration:
+                        pass
+                    co.close()
+        tid = {id(v): k for k, v in toks.items()}
+        sched = [(w, tid[id(sig)]) for w, sig in loop.log]
+        wf = [(w, tid[id(sig)]) for w, sig in flag._waiting]
+        wi = [(w, tid[id(sig)]) for w, sig in (~flag)._waiting]
+        flag._waiting.clear()
+        (~flag)._waiting.clear()
+        cases.append((ops, bool(flag), sched, wf, wi, revoked, errors))
+        if (bool(flag) and wf) or (not bool(flag) and wi):
+            ctx.fail({'flag_history': ops}, 'after %r the flag is %r but %r is parked on the side that holds'
+                     % (ops, bool(flag), wf if bool(flag) else wi), family='flag-list')
+
+    def pl(l):
+        return '[%s]' % '; '.join('(%d, %d)' % p for p in l)
+    text = ['From Coq Require Import List Arith Bool.', 'From Usim Require Import FlagList.', 'Import ListNotations.',
+            'Definition pdec (a b : nat * nat) : {a = b} + {a <> b}.\nProof. decide equality; apply Nat.eq_dec. Defined.',
+            'Definition same (s : fl) (v : bool) (sc a b : list sub) (rv : list nat) (er : nat) : bool :=',
+            '  Bool.eqb (value s) v && (if list_eq_dec pdec (scheduled s) sc then true else false) &&',
+            '  (if list_eq_dec pdec (wf s) a then true else false) && (if list_eq_dec pdec (wi s) b then true else false) &&',
+            '  (if list_eq_dec Nat.eq_dec (revoked s) rv then true else false) && Nat.eqb (errors s) er.',
+            'Definition bad : list nat := flat_map (fun x => x) [%s].' % ';\n  '.join(
+                '(if same (run [%s]) %s %s %s %s [%s] %d then [] else [%d])' % (
+                    '; '.join(o), 'true' if v else 'false', pl(sc), pl(a), pl(b), '; '.join(map(str, rv)), er, i)
+                for i, (o, v, sc, a, b, rv, er) in enumerate(cases)),
+            'Eval vm_compute in bad.']
+    path = ctx.write_case_file('flag_list', '\n'.join(text) + '\n')
+    rc, out = ctx.run_case_files([path])[path]
+    bad = parse_nat_list(out) if rc == 0 else None
+    ctx.bump('family:flag-list-correspondence', n)
+    if bad is None:
+        ctx.mismatch('flag-list', None, None, None, 'case file did not evaluate: %s' % out[-400:])
+    else:
+        for i in bad:
+            ctx.mismatch('flag-list', {'ops': cases[i][0]}, cases[i][1:], 'model differs', '')
+
+
 def resource_waiters(ctx, n):
     """directed family (direct API): activities await resource-level comparisons (`res >= {..}`, `res <= {..}`, connectives
     of them) while the levels change through EVERY route: borrow/claim blocks left normally, by an exception, by a cancel, by
@@ -229,6 +320,7 @@ def run(ctx):
     from harness.props import C01
     C01.reused_conditions(ctx, ctx.n(20, 300))
     resource_waiters(ctx, ctx.n(40, 600))
+    flag_list_correspondence(ctx, ctx.n(300, 3000))
     resource_comparisons(ctx)
 
 
